@@ -1,6 +1,6 @@
 SPECIFICATION Spec
 CONSTANTS NU = 2  NG = 0  NC = 4  MaxOps = 10  Spurious = FALSE
   Amts <- A1  Ops <- OpsNone  KickSets <- KS1
-  ClearAtomic = TRUE  LogAtomic = TRUE  KickConsume = TRUE  OfflineOnVeto = TRUE  CloseOnLateVeto = TRUE  OnlineFloor = TRUE
+  ClearAtomic = TRUE  LogAtomic = TRUE  KickConsume = TRUE  OfflineOnVeto = TRUE  CloseOnLateVeto = TRUE  AuthAtomic = TRUE  OnlineFloor = TRUE
 INVARIANT PrintScn
 CHECK_DEADLOCK FALSE
